@@ -8,7 +8,7 @@ THEOREMS = ["C11_first_match_wins", "C11_undefined_iff", "C11_argument_order", "
 ASSUMPTIONS = ["CPython frame objects (f_locals / f_globals of the frame k levels up) are modelled as a stack of "
                "(locals, globals) pairs; the correspondence builds real nested callers",
                "the built-in scope is exercised by temporarily adding entries to formulae.transforms.TRANSFORMS"]
-RULE = ("exhaustive: all 2^5 subsets of scopes defining the name x role (argument, callee, dotted callee, "
+RULE = ("exhaustive: all 2^5 subsets of scopes defining the name x role (argument, callee, dotted callee, doubly dotted callee, "
         "backquoted argument, keyword-argument value, argument of a nested call) x env depth 0..3 (and one depth beyond the stack) through four nested callers "
         "with their own locals and globals; non-trivial = every case; distinct = case")
 EXHAUSTIVE = {"quick": True, "thorough": True}
@@ -22,7 +22,7 @@ VAL = {"data": 1.0, "builtin": 2.0, "extra": 5.0}
 def gen(rng, tier):
     cases = []
     # kwarg: the name is the VALUE of a keyword argument; nested: it is an argument of a call inside a call
-    for role in ("arg", "callee", "dotted", "bq", "kwarg", "nested"):
+    for role in ("arg", "callee", "dotted", "dotted2", "bq", "kwarg", "nested"):
         for r in range(0, 6):
             for subset in itertools.combinations(SCOPES, r):
                 if role == "bq" and "local" in subset:
@@ -51,7 +51,7 @@ def nontrivial(c, mo, obs):
 
 def _name(c):
     return {"arg": "nm", "callee": "nm", "dotted": "mod", "bq": "my nm", "arg-none": "nm", "kwarg": "nm",
-            "nested": "nm"}[c["role"]]
+            "nested": "nm", "dotted2": "mod"}[c["role"]]
 
 
 def expected(c):
@@ -59,7 +59,7 @@ def expected(c):
     if c["depth"] >= NFRAMES:
         return ["err", "Value"]
     order = ["data", "builtin", "local", "global", "extra"]
-    if c["role"] in ("callee", "dotted"):
+    if c["role"] in ("callee", "dotted", "dotted2"):
         order = order[1:]
     if c["role"] == "arg-none":
         # the first defining scope binds None: sel(x, None) returns x, whose first entry is 1.0
@@ -80,6 +80,8 @@ def model_cmd(c):
     d = c["defined"]
 
     def obj(v):
+        if c["role"] == "dotted2":
+            return ["mod", [["sub", ["mod", [["nm", ["m", str(v)]]]]]]]
         return ["mod", [["nm", ["m", str(v)]]]] if c["role"] == "dotted" else ["m", str(v)]
 
     data = [[name, obj(VAL["data"])]] if "data" in d else []
@@ -105,7 +107,7 @@ def model_cmd(c):
             stack.append([lo, gl])
         data = []
     role = "arg" if c["role"] in ("arg", "bq", "arg-none", "kwarg", "nested") else "callee"
-    path = [name] if c["role"] != "dotted" else ["mod", "nm"]
+    path = {"dotted": ["mod", "nm"], "dotted2": ["mod", "sub", "nm"]}.get(c["role"], [name])
     return core.sshow(["c11", role, str(c["depth"]), path, data, builtins, stack, extra])
 
 
@@ -130,13 +132,15 @@ def _run(c):
         if role in ("arg", "bq", "kwarg", "nested"):
             return np.full(n, float(v))
         fn = (lambda x, _v=float(v): x * 0 + _v)
+        if role == "dotted2":
+            return types.SimpleNamespace(sub=types.SimpleNamespace(nm=fn))
         return types.SimpleNamespace(nm=fn) if role == "dotted" else fn
 
     cols = {"y": np.arange(n, dtype=float), "x": np.arange(n, dtype=float) + 1}
     if "data" in d:
         cols[name] = np.full(n, VAL["data"])
     df = pd.DataFrame(cols)
-    formula = {"arg": "y ~ I(nm)", "callee": "y ~ nm(x)", "dotted": "y ~ mod.nm(x)", "bq": "y ~ I(`my nm`)",
+    formula = {"arg": "y ~ I(nm)", "callee": "y ~ nm(x)", "dotted": "y ~ mod.nm(x)", "dotted2": "y ~ mod.sub.nm(x)", "bq": "y ~ I(`my nm`)",
                "arg-none": "y ~ sel_(x, nm)", "kwarg": "y ~ keep_(x, w=nm)",
                "nested": "y ~ keep_(x, w=keep_(x, nm))"}[role]
     extra = {name: val(VAL["extra"], "extra")} if "extra" in d else None
